@@ -417,7 +417,7 @@ func fileget(h FileReader, r *Request, pkt requestPacket, alloc *allocator, orde
 
 	n, err := rd.ReadAt(data, offset)
 	// only return EOF error if no data left to read
-	if err != nil && (err != io.EOF || n == 0) {
+	if err != nil && (!errors.Is(err, io.EOF) || n == 0) {
 		return statusFromError(pkt.id(), err)
 	}
 
@@ -454,7 +454,7 @@ func fileputget(h FileWriter, r *Request, pkt requestPacket, alloc *allocator, o
 
 		n, err := rw.ReadAt(data, offset)
 		// only return EOF error if no data left to read
-		if err != nil && (err != io.EOF || n == 0) {
+		if err != nil && (!errors.Is(err, io.EOF) || n == 0) {
 			return statusFromError(pkt.id(), err)
 		}
 
@@ -539,7 +539,7 @@ func filelist(h FileLister, r *Request, pkt requestPacket) responsePacket {
 
 	switch r.Method {
 	case "List":
-		if err != nil && (err != io.EOF || n == 0) {
+		if err != nil && (!errors.Is(err, io.EOF) || n == 0) {
 			return statusFromError(pkt.id(), err)
 		}
 
@@ -596,7 +596,7 @@ func filestat(h FileLister, r *Request, pkt requestPacket) responsePacket {
 
 	switch r.Method {
 	case "Stat", "Lstat":
-		if err != nil && err != io.EOF {
+		if err != nil && !errors.Is(err, io.EOF) {
 			return statusFromError(pkt.id(), err)
 		}
 		if n == 0 {
@@ -612,7 +612,7 @@ func filestat(h FileLister, r *Request, pkt requestPacket) responsePacket {
 			info: finfo[0],
 		}
 	case "Readlink":
-		if err != nil && err != io.EOF {
+		if err != nil && !errors.Is(err, io.EOF) {
 			return statusFromError(pkt.id(), err)
 		}
 		if n == 0 {
